@@ -354,6 +354,7 @@ type sxProc struct {
 	so, se bytes.Buffer
 	t0     time.Time
 	donec  chan error
+	gone   chan struct{} // closed when the process has ended
 }
 
 // firstAllowedCPU: the lowest CPU number in this process's affinity mask (-1 if it cannot be read)
@@ -384,6 +385,7 @@ func startSX(oneCPU bool, stdin []byte, args ...string) (*sxProc, error) {
 type sxOpt struct {
 	nofile     int
 	slowStderr time.Duration
+	stdinHold  bool   // stdin is a pipe that stays open after the given bytes (a producer that has not finished)
 	stdoutPath string // stdout is this file (e.g. /dev/full: every write fails with ENOSPC)
 	race       bool // the race-enabled build (exit status 66 and a report on stderr at the first data race)
 }
@@ -424,7 +426,7 @@ func startSXOpt(o sxOpt, oneCPU bool, stdin []byte, args ...string) (*sxProc, er
 		args = append([]string{"-c", fmt.Sprintf(`ulimit -n %d; exec "$0" "$@"`, o.nofile), bin}, args...)
 		bin = "/bin/sh"
 	}
-	p := &sxProc{donec: make(chan error, 1)}
+	p := &sxProc{donec: make(chan error, 1), gone: make(chan struct{})}
 	cpu := -1
 	if oneCPU {
 		cpu = firstAllowedCPU()
@@ -452,7 +454,17 @@ func startSXOpt(o sxOpt, oneCPU bool, stdin []byte, args ...string) (*sxProc, er
 		}
 	}
 	p.cmd.Env = append(append(os.Environ(), hostileEnv()...), "GORACE=halt_on_error=1 exitcode=66")
-	if stdin != nil {
+	if stdin != nil && o.stdinHold {
+		if pr, pw, err := os.Pipe(); err == nil {
+			p.cmd.Stdin = pr
+			go func() {
+				pw.Write(stdin)
+				<-p.gone // the write end is closed only when the process has ended
+				pw.Close()
+				pr.Close()
+			}()
+		}
+	} else if stdin != nil {
 		p.cmd.Stdin = bytes.NewReader(stdin)
 	}
 	p.t0 = time.Now()
@@ -465,7 +477,12 @@ func startSXOpt(o sxOpt, oneCPU bool, stdin []byte, args ...string) (*sxProc, er
 	if err != nil {
 		return nil, err
 	}
-	go func() { p.donec <- p.cmd.Wait() }()
+	go func() {
+		// (Wait itself waits for the stdin copy of a bytes.Reader; a held pipe is a *os.File and is not waited for)
+		err := p.cmd.Wait()
+		close(p.gone)
+		p.donec <- err
+	}()
 	return p, nil
 }
 
